@@ -26,7 +26,7 @@ ASSUMPTIONS = [
     "oracle: y0 + (x-x0)*(y1-y0)/(x1-x0) on the sorted fibre, compared with rtol=atol=1e-12, cross-checked against np.interp",
     "labels and values are dyadic rationals; data may contain NaN (a node keeps its value, an interval next to a NaN is NaN) and infinities (numpy.interp semantics: from the left node, else from the right node, else the common node value)",
 ]
-MANDATORY = ["operand:interpolated-before-with-other-values", "data:nan", "point:between", "point:below", "point:above", "point:on-node", "axis:size-1", "axis:shuf", "axis:dec", "axis:not-first", "ndim:1", "ndim>=2",
+MANDATORY = ["new:axis-object-of-another-name", "new:named-dimarray", "operand:interpolated-before-with-other-values", "data:nan", "point:between", "point:below", "point:above", "point:on-node", "axis:size-1", "axis:shuf", "axis:dec", "axis:not-first", "ndim:1", "ndim>=2",
              "fill:left-finite", "fill:right-finite", "new:unsorted", "new:empty", "issorted:True", "like", "dataset", "vk:i"]
 
 
@@ -75,7 +75,7 @@ def case_st(draw):
     spec = {"dims": dims, "labels": labels, "vk": vk, "vals": vals, "attrs": {"units": "K", "h": [1]}}
     case = {"mode": mode, "spec": spec, "ax": ax, "axis_form": draw(st.sampled_from(["name", "pos", "neg"])), "new": draw(points(labels[ax])),
             "left": draw(st.sampled_from(["nan", "nan", -77.0, 0, 0.0])), "right": draw(st.sampled_from(["nan", "nan", 88.0, 0, 0.0])),
-            "issorted": draw(st.sampled_from([None, None, True])), "new_as": draw(st.sampled_from(["list", "array"])), "positional": draw(st.integers(0, 3)) == 0}
+            "issorted": draw(st.sampled_from([None, None, True])), "new_as": draw(st.sampled_from(["list", "array", "axis-other-name", "named-dimarray"])), "positional": draw(st.integers(0, 3)) == 0}
     if mode == "like":
         # template: new coordinates for a subset of dims (+ an unrelated dim)
         t = {}
@@ -233,6 +233,13 @@ def run_case(case):
             kw2["issorted"] = True
             cl.add("issorted:True")
         arg = list(new) if case["new_as"] == "list" else np.array(new, dtype=float)
+        if case["new_as"] == "axis-other-name":
+            arg = da.Axis(np.array(new, dtype=float), "other_name_")          # an Axis object of another array: only its values count
+            cl.add("new:axis-object-of-another-name")
+        elif case["new_as"] == "named-dimarray":
+            arg = da.DimArray(np.array(new, dtype=float), axes=[da.Axis(np.arange(len(new)), "k_")])
+            arg.name = "other_name_"
+            cl.add("new:named-dimarray")
         if case.get("rehearse"):
             rehearse([a], lambda: a.interp_axis(arg, axis=axis, **kw2))
         if case.get("positional") and "issorted" not in kw2:
@@ -246,6 +253,8 @@ def run_case(case):
         core.expect_array(res, dims, newlabels, expected_fn(spec, d, left, right), what, tol=True, sig=sig)
         check(core.attrs_equal(res.attrs, spec["attrs"]), "attrs-not-kept", {"what": what, "got": core.jsonable(res.attrs)}, sig)
         other_axes_kept(res, [d], what)
+        # numpy.interp returns double precision numbers whatever the data (also for integer data met at its own nodes)
+        check(res.values.dtype == np.dtype(float), "result-dtype", {"what": what, "got": str(res.values.dtype), "data": str(a.values.dtype)}, sig)
     elif case["mode"] == "like":
         t = case["template"]
         taxes = da.Axes([da.Axis(np.array(v, dtype=float), k) for k, v in t.items()])
